@@ -154,16 +154,25 @@ func c5Check(c *Ctx, tn, class string, fn *ssa.Function) {
 			c.Check(isCE(v) && neg, "R5.1", name, "disabled-returns-incoming#"+itoa(k+1), r.Pos(), "the disabled path returns the incoming entry itself (returns %s, guards %v)", Desc(v), AtomStrings(Guards(r)))
 		}
 	case "filter":
-		if len(inner) != 1 || len(addCore) != 0 {
-			c.Bad("R5.1", name, "filter-shape", fn.Pos(), "filter core must delegate exactly once and never register itself (inner Check=%d, AddCore=%d)", len(inner), len(addCore))
+		if len(inner) < 1 || len(addCore) != 0 {
+			c.Bad("R5.1", name, "filter-shape", fn.Pos(), "filter core must delegate and never register itself (inner Check=%d, AddCore=%d)", len(inner), len(addCore))
 			return
 		}
-		in := inner[0]
-		c.Check(posEnabled(in), "R5.1", name, "delegates-iff-enabled", in.Pos(), "delegation is guarded by the filter's own Enabled(ent.Level) (guards %v)", AtomStrings(Guards(in)))
-		c.Check(sameEnt(in) && isCE(in.Call.Args[1]), "R5.1", name, "delegates-same-entry", in.Pos(), "wrapped.Check receives the same ent and the incoming checked entry (args %s, %s)", Desc(in.Call.Args[0]), Desc(in.Call.Args[1]))
+		for k, in := range inner {
+			sfx := ""
+			if k > 0 {
+				sfx = "#" + itoa(k+1)
+			}
+			c.Check(posEnabled(in), "R5.1", name, "delegates-iff-enabled"+sfx, in.Pos(), "delegation is guarded by the filter's own Enabled(ent.Level) (guards %v)", AtomStrings(Guards(in)))
+			c.Check(sameEnt(in) && isCE(in.Call.Args[1]), "R5.1", name, "delegates-same-entry"+sfx, in.Pos(), "wrapped.Check receives the same ent and the incoming checked entry (args %s, %s)", Desc(in.Call.Args[0]), Desc(in.Call.Args[1]))
+		}
 		for k, r := range Returns(fn) {
 			v := Strip(RetVals(r)[0])
-			c.Check(v == ssa.Value(in) || isCE(v), "R5.1", name, "return#"+itoa(k+1), r.Pos(), "returns either the wrapped result or the incoming entry (returns %s)", Desc(v))
+			isInner := false
+			for _, in := range inner {
+				isInner = isInner || v == ssa.Value(in)
+			}
+			c.Check(isInner || isCE(v), "R5.1", name, "return#"+itoa(k+1), r.Pos(), "returns either the wrapped result or the incoming entry (returns %s)", Desc(v))
 		}
 	case "passthrough":
 		ok := len(inner) == 1 && len(addCore) == 0 && sameEnt(inner[0]) && isCE(inner[0].Call.Args[1])
@@ -427,7 +436,7 @@ func c5Levels(c *Ctx, impls []*types.Named) {
 					lo = call
 					for _, cond := range edgeConds(pred) {
 						s := AtomString(cond)
-						if s != Desc(call)+" < "+Desc(acc) {
+						if s != Desc(call)+" < "+Desc(acc) && s != Desc(acc)+" > "+Desc(call) {
 							okUpd = false
 						}
 					}
